@@ -123,6 +123,10 @@ pub fn check(start: Start, b: &[u8], ctx: &mut Ctx) -> Result<(), Failure> {
     let input = || input_json(start, b);
     let entry = lax_entry_name(start);
     let r_lax = refdec::decode(start, b, true);
+    if r_lax.policy_ambiguous {
+        ctx.class("skipped:ether-type/version-nibble-mismatch (undocumented lax policy)");
+        return Ok(());
+    }
     ctx.eval(1);
     if let Some(res) = catch(|| slice_lax(start, b)).map_err(|m| Failure::new(format!("C05|{}|panic|{}", entry, panic_location(&m)), "an answer is prescribed for every input", m, input()))? {
         match (&res, r_lax.first_header_failed) {
@@ -424,7 +428,7 @@ impl Property for C05 {
     fn assumptions(&self) -> Vec<String> {
         vec![
             "reference decoder in lax mode with the documented fall-backs (refdec/mod.rs: length field larger than data => rest of data, incomplete; IPv4 total length below header length => rest of data, not incomplete; lax UDP falls back to the data available)".into(),
-            "lax decoders pick the IP version from the version nibble even under the other IP ether type (refdec/policy.rs LAX_IP_DISPATCH_BY_VERSION: observed crate policy, not asserted as required by the formats)".into(),
+            "inputs whose ether type announces one IP version while the version nibble holds the other supported one are skipped (what lax decoding does there is undocumented crate policy; counted in the distribution as skipped)".into(),
             "struct-family results are only compared when the IPv6 extension chain fits the fixed struct (documented C04 exception)".into(),
         ]
     }
